@@ -2,7 +2,17 @@
 
 package core
 
-import "gitlab.com/aquachain/aquachain/core/types"
+import (
+	"gitlab.com/aquachain/aquachain/common"
+	"gitlab.com/aquachain/aquachain/core/types"
+)
 
 // VerifReset is the tester's lockedReset: a synchronous head change.
 func (pool *TxPool) VerifReset(oldHead, newHead *types.Header) { pool.lockedReset(oldHead, newHead) }
+
+// VerifIsLocal reports whether the pool treats addr as a local sender.
+func (pool *TxPool) VerifIsLocal(addr common.Address) bool {
+	pool.mu.RLock()
+	defer pool.mu.RUnlock()
+	return pool.locals.contains(addr)
+}
